@@ -14,14 +14,14 @@ target('c01tf', ['harness/c01_types.cpp'], flags=['-DC01_VT=3'])
 def c01_jobs(tier):
     q = tier == 'quick'
     js = [job('truthful-plain', 'c01', 'plain', threads=1, shards=12 if q else 16, timeout=7200),
-          job('truthful-asan',  'c01', 'asan',  threads=1, shards=8 if q else 16, timeout=14400, args=['--stride=4'] if q else ['--stride=6']),
+          job('truthful-asan',  'c01', 'asan',  threads=1, shards=8 if q else 16, timeout=14400, args=['--stride=5'] if q else ['--stride=7']),      # strides are coprime with the shard counts (cases are sharded by idx % shards)
           job('types-complex',  'c01tc', 'plain', threads=1, shards=2 if q else 4, timeout=7200),
           job('types-block',    'c01tb', 'plain', threads=1, shards=2 if q else 4, timeout=7200),
           job('types-float',    'c01tf', 'plain', threads=1, shards=2 if q else 4, timeout=7200)]
     if not q:
         # 4 threads: the parallel code paths (level-scheduled ILU solves, parallel Gauss-Seidel, reductions) under the same oracle.  libgomp with the passive wait
-        # policy is slow on these small systems (measured 25 s per case on the shared machine), hence every 12th case only.
-        js.append(job('truthful-plain-t4', 'c01', 'plain', threads=4, shards=4, timeout=14400, args=['--sub', 'truthful', '--stride=12']))
+        # policy is slow on these small systems (measured 25 s per case on the shared machine), hence every 11th case only.
+        js.append(job('truthful-plain-t4', 'c01', 'plain', threads=4, shards=4, timeout=14400, args=['--sub', 'truthful', '--stride=11']))
     return js
 
 # Oracle notes (rule 4 of the harness guide; details next to vf::check_truthful in include/vf/krylov.hpp):
